@@ -24,20 +24,26 @@ HStep(op, r, s) ==
        [] op[1] = "get" -> /\ tab' = tab
                            /\ IF \E e \in m : e[2] = op[3] THEN <<r[1], r[2]>> \in m /\ r[2] = op[3] ELSE r[1] = 0
        [] op[1] = "insn" -> r[1] /\ tab' = [tab EXCEPT ![t] = m \cup {<<op[5] + k, op[3] + k>> : k \in 0 .. op[4] - 1}]
+       [] op[1] = "insk" -> r[1] /\ tab' = [tab EXCEPT ![t] = m \cup {<<op[5] + k - 1, op[4][k]>> : k \in 1 .. Len(op[4])}]
+       [] op[1] = "rehash" -> tab' = tab                \* _rehash(row) called directly: contents unchanged
        [] op[1] = "remn" -> LET ids == op[3] .. op[3] + op[4] - 1 gone == {e \in m : e[1] \in ids} IN
                             r[1] = Cardinality(gone) /\ tab' = [tab EXCEPT ![t] = m \ gone]
        [] op[1] = "swap" -> tab' = [tab EXCEPT ![t] = tab[o], ![o] = m]
        [] op[1] = "release" -> tab' = [tab EXCEPT ![t] = {}]
        [] op[1] = "all" -> tab' = tab
 
-Positions(x) == UNION {{<<i, j>> : j \in 1 .. Len(x.buckets[i])} : i \in 1 .. Len(x.buckets)}
-NodeAt(x, p) == x.buckets[p[1]][p[2]]
+(* x.buckets lists the non-empty buckets only: <<bucket index, <<node, ...>>>> with node = <<id, key, home>> *)
+Positions(x) == UNION {{<<i, j>> : j \in 1 .. Len(x.buckets[i][2])} : i \in 1 .. Len(x.buckets)}
+NodeAt(x, p) == x.buckets[p[1]][2][p[2]]
+BucketOf(x, p) == x.buckets[p[1]][1]
 HoldsExactly == \A k \in DOMAIN hst : LET x == hst[k] IN
                   /\ {<<NodeAt(x, p)[1], NodeAt(x, p)[2]>> : p \in Positions(x)} = tab[x.t]
                   /\ Cardinality(Positions(x)) = Cardinality(tab[x.t])          \* no node linked twice
 SizeOk == \A k \in DOMAIN hst : hst[k].size = Cardinality(tab[hst[k].t])
 Reachable == \A k \in DOMAIN hst : LET x == hst[k] IN
-               /\ x.nb >= 1 /\ Len(x.buckets) = x.nb
-               /\ \A p \in Positions(x) : NodeAt(x, p)[3] = p[1] - 1          \* node sits in the bucket get() searches
+               /\ x.nb >= 1
+               /\ \A i \in DOMAIN x.buckets : x.buckets[i][1] >= 0 /\ x.buckets[i][1] < x.nb
+               /\ \A i \in 1 .. Len(x.buckets) - 1 : x.buckets[i][1] < x.buckets[i + 1][1]
+               /\ \A p \in Positions(x) : NodeAt(x, p)[3] = BucketOf(x, p)  \* node sits in the bucket get() searches
 HInv == HoldsExactly /\ SizeOk /\ Reachable
 =============================================================================
